@@ -418,10 +418,15 @@ CReparam(e) ==
              ELSE (IF AllZero(V(e.w0)) /\ AllZero(V(e.a0)) THEN "still" ELSE "moving")
                   \o "|" \o (IF RSign(Q(e.sv)) = 0 THEN "sv=0" ELSE "sv>0")
                   \o "|" \o (IF e.ev[4] = 100001 THEN "ev=inf" ELSE IF RSign(Q(e.ev)) = 0 THEN "ev=0" ELSE "ev>0")
-      \* information only: the largest upward jump of s between consecutive samples (the property's "onto" is read as
-      \* s(0) = t_min, s(T) = t_max, see notes)
+      \* information only (not a verdict): does s jump upwards by more than 1e-6 (t_max - t_min) at an inner knot?
+      \* The property's "onto" is read as s(0) = t_min and s(T) = t_max, see tools/notes_C14.md.
+      jump == IF Len(dom) > 0 \/ ~fin THEN "-"
+              ELSE LET sx == V(e.s)  np == Len(e.knots) - 1
+                       js == Mk(np - 1, LAMBDA q : LET i == e.ki[q + 1] IN IF i > 1 THEN PosPart(RSub(sx[i], sx[i - 1])) ELSE R0)
+                   IN IF RLeq(VMax0(js), RMul(Tol6, RMax(R1, RSub(Q(e.sf), Q(e.s0))))) THEN "none" ELSE "some"
   IN [bad |-> IF Len(dom) > 0 THEN dom ELSE IF ~fin THEN NonFinite("C14.reparam.finite") ELSE TReparam(e),
-      stratum |-> str, keys |-> <<"reparam|" \o str, "reparam.input|" \o e.kind>>, info |-> [spec |-> "-", kind |-> e.kind]]
+      stratum |-> str, keys |-> <<"reparam|" \o str, "reparam.input|" \o e.kind, "reparam.innerjump|" \o jump>>,
+      info |-> [spec |-> "-", kind |-> e.kind]]
 
 ---------------------------------------------------------------------------
 Check(e) ==
